@@ -1,46 +1,35 @@
-import SleapVerif.Lemmas.TrackerIdentity
+import SleapVerif.Lemmas.TrackerHistory
 /-!
 # C10 — well-separated animals keep their identity
 
-Same model as C09 (`SleapVerif.Tracker`, repaired step functions).  Ground truth enters as the
-list `ident` of **identity edges** of a frame: `(i, t) ∈ ident` iff detection `i` is the animal that
-owns track `t`.  `Separated score cands m cur ident` is the separation hypothesis of the property
-(each detection scores strictly higher against every stored feature of its own track than against
-any stored feature of another track, and than any other detection against its own track);
-`hcov` is the class condition "a newcomer only appears while all known animals are visible"
-(every (detection, track) pair shares its detection or its track with an identity edge);
-`hns` is "absences are shorter than the window" (every known track still has a candidate).
+Same model as C09 (`SleapVerif.Tracker`, repaired step functions).  Ground truth is a labelling
+`who : φ → Nat` (animal of every feature).  The class of the property is `SceneFrame` for every frame,
+relative to the window the tracker holds when the frame arrives (`FW.InClass` / `LQ.InClass`, defined
+along the run of the deterministic model): one detection per animal, all scores above the new-track
+threshold, absences shorter than the window (`noStale`), a newcomer only while every animal in the
+window is visible, and separation (a detection scores strictly higher against every stored feature of
+its own animal than against any stored feature of another animal, and than any other detection does
+against them).
 
-`IdentityStep thr m cur ident ids` is the conclusion for one frame: every detection of a known
-animal gets exactly its own track, every newcomer above the threshold gets an id `≥ m`
-(`m` = number of tracks ever created, so nobody has held it).
+**Headline** (`identity_preserved_fw_*`, `identity_preserved_lq_*`, `identity_constant`): for every
+history of the class, from the fresh tracker, `track` never raises and there is an owner map
+`track id ↦ animal`, injective on all tracks ever created, such that on every frame every detection
+has a track and that track's owner is the detection's animal.  Hence the same animal has the same
+track on every frame where it is detected, two animals never share a track over the whole history,
+and a newcomer's id was never held by anybody.  Proved outright for the greedy matcher (numpy's
+argsort contract `ArgsortSorted` is validated per call); for the Hungarian matcher under scipy's
+optimum-uniqueness contract `LsaPicksIdentity` (stated as `hungarian_picks_identity_full`, not
+proved, validated per recorded call by the harness).
 
-What is proved: the whole chain for **one call of `track`** from feature-level separation to the
-returned ids, for both candidate classes, both reductions, and the greedy matcher; the Hungarian
-matcher under the solver contract `LsaPicksIdentity` (optimum uniqueness under dominance, validated
-against scipy per call by the harness, not proved).  What is *not* proved is the lifting to whole
-histories from input-only separation: that needs the purity invariant "all stored features of
-track `t` belong to one animal", which is what turns geometric separation of the animals into
-`Separated` relative to the window contents; the harness measures it on the real queue each frame.
+Proof: invariant = C09 invariant + window purity (`FW.Pure` / `LQ.Pure`: every stored feature of
+track `t` belongs to `owner t`) + injectivity of `owner`; `window_purity_step_*` shows one call of
+`track` preserves it and extends the owner map; purity turns `SceneFrame` into the per-frame
+`FrameClass` of the one-step theorems (`fw_identity_step_*`), whose chain is
+separation ⇒ dominant cost matrix (`reduction_preserves_dominance`, `separated_gives_dominant`)
+⇒ the matcher returns exactly the identity edges (`greedy_picks_identity`) ⇒ ids (`IdentityStep`).
 -/
 namespace SleapVerif.C10
 open SleapVerif.Tracker
-
-/-
-Full statement `identity_preserved` (NOT proved; only the `_partial` one-step theorems below are):
-
-  for a ground-truth labelling `who : φ → Nat`, a score that separates animals globally
-  (`who a = who f → who f' ≠ who a → score a f' < score a f`, and
-   `who a = who f₁ = who f₂ → who b ≠ who a → score b f₂ < score a f₁`), and a history `frames` in
-  which the animals of a frame are distinct, a new animal only appears in a frame containing all
-  animals seen so far, and no animal is absent for `window` or more consecutive pushed frames:
-  if `run (FW.step cfg ext score) FW.empty frames = .ok (s', outs)` then there is
-  `owner : Nat → Nat`, injective on `[0, s'.tracks.length)`, with
-  `outs[k][i] = some t → who frames[k][i].1 = owner t` for every frame `k` and detection `i`
-  (and every detection above the threshold has `some` track, by C09).
-
-The missing step is the purity invariant of the window (see the module docstring and notes/C10.md).
--/
 
 section reductions
 variable {R : Type} [Field R] [LinearOrder R] [IsStrictOrderedRing R]
@@ -103,18 +92,7 @@ theorem greedy_stage_picks_identity {ext : Ext R} (hext : ExtOk ext) (hsort : Ar
     ∃ ms, assignStage Fixes.repaired .greedy ext m cost = .ok ms ∧ ∀ p, p ∈ ms ↔ p ∈ ident :=
   greedy_stage_identity hext hsort m cost hne hrect hsome ident hb hdom hcov
 
-/-- hypotheses of the property's class for one frame, relative to the window contents -/
-structure FrameClass (score : φ → φ → R) (cands : Nat → List φ) (m : Nat) (cur : List (φ × R))
-    (ident : List (Nat × Nat)) : Prop where
-  nonempty : cur ≠ []
-  bounds : ∀ e ∈ ident, e.1 < cur.length ∧ e.2 < m
-  /-- absences shorter than the window -/
-  noStale : ∀ t, t < m → cands t ≠ []
-  separated : Separated score cands m (cur.map (·.1)) ident
-  /-- a newcomer only while every known animal is visible -/
-  cover : ∀ g : Nat × Nat, g.1 < cur.length → g.2 < m → ∃ e ∈ ident, e.1 = g.1 ∨ e.2 = g.2
-
-/-- shared core: the stage returns `ident` (as a valid match list) for either matcher -/
+/-- shared core (see `Tracker.stage_identity`): the stage returns `ident` for either matcher -/
 theorem stage_identity (cfg : Config R) (ext : Ext R) (hext : ExtOk ext)
     (hmatch : (cfg.matcher = .greedy ∧ ArgsortSorted ext) ∨
               (cfg.matcher = .hungarian ∧ LsaPicksIdentity ext))
@@ -122,41 +100,11 @@ theorem stage_identity (cfg : Config R) (ext : Ext R) (hext : ExtOk ext)
     (ident : List (Nat × Nat)) (hc : FrameClass score cands m cur ident) :
     ident ≠ [] ∧ ∃ ms, assignStage Fixes.repaired cfg.matcher ext m
         (toCost (scoreMatrixP cfg.red score cands m (cur.map (·.1)))) = .ok ms ∧
-        MatchValid cur.length m ms ∧ ∀ p, p ∈ ms ↔ p ∈ ident := by
-  have hlen : (toCost (scoreMatrixP cfg.red score cands m (cur.map (·.1)))).length = cur.length := by
-    rw [toCost_length, scoreMatrixP_length]; simp
-  have hcur : 0 < cur.length := List.length_pos_iff.2 hc.nonempty
-  have hne : toCost (scoreMatrixP cfg.red score cands m (cur.map (·.1))) ≠ [] := by
-    apply List.ne_nil_of_length_pos; rw [hlen]; exact hcur
-  obtain ⟨hrect, hsome, hdom⟩ := score_matrix_dominant cfg.red score cands m (cur.map (·.1)) ident
-    (by simpa using hc.bounds) hc.noStale hc.separated
-  have hid : ident ≠ [] := by
-    obtain ⟨e, he, _⟩ := hc.cover (0, 0) hcur hm
-    exact List.ne_nil_of_mem he
-  refine ⟨hid, ?_⟩
-  obtain ⟨ms0, h0, hv0, _⟩ := assignStage_repaired hext Fixes.repaired rfl cfg.matcher m
-    (toCost (scoreMatrixP cfg.red score cands m (cur.map (·.1))))
-  rw [hlen] at hv0
-  have hb' : ∀ e ∈ ident, e.1 < (toCost (scoreMatrixP cfg.red score cands m (cur.map (·.1)))).length
-      ∧ e.2 < m := by rw [hlen]; exact hc.bounds
-  have hcov' : ∀ g : Nat × Nat,
-      g.1 < (toCost (scoreMatrixP cfg.red score cands m (cur.map (·.1)))).length → g.2 < m →
-      ∃ e ∈ ident, e.1 = g.1 ∨ e.2 = g.2 := by rw [hlen]; exact hc.cover
-  rcases hmatch with ⟨hg, hsort⟩ | ⟨hh, hpick⟩
-  · obtain ⟨ms, h1, hset⟩ := greedy_stage_identity hext hsort m _ hne hrect hsome ident hb' hdom hcov'
-    rw [hg] at h0 ⊢
-    have e : ms = ms0 := by rw [h1] at h0; exact Except.ok.inj h0
-    subst e
-    exact ⟨ms, h1, hv0, hset⟩
-  · obtain ⟨ms, h1, hset⟩ := hungarian_stage_identity hpick m _ hne hrect hsome ident hb' hdom hcov'
-    rw [hh] at h0 ⊢
-    have e : ms = ms0 := by rw [h1] at h0; exact Except.ok.inj h0
-    subst e
-    exact ⟨ms, h1, hv0, hset⟩
+        MatchValid cur.length m ms ∧ ∀ p, p ∈ ms ↔ p ∈ ident :=
+  Tracker.stage_identity cfg ext hext hmatch score cands m hm cur ident hc
 
-/-- **identity preserved, fixed window, greedy matcher** (one call of `track`; partial: see the
-    module docstring for what is missing to lift it to histories) -/
-theorem fw_identity_preserved_greedy_partial (cfg : Config R) (hfx : cfg.fx = Fixes.repaired)
+/-- one call of `track`, fixed window, greedy matcher, relative to given identity edges -/
+theorem fw_identity_step_greedy (cfg : Config R) (hfx : cfg.fx = Fixes.repaired)
     (hg : cfg.matcher = .greedy) (ext : Ext R) (hext : ExtOk ext) (hsort : ArgsortSorted ext)
     (score : φ → φ → R) (s : FW φ) (hs : s.Inv) (hq : s.queue ≠ []) (cur : List (φ × R))
     (ident : List (Nat × Nat)) (hc : FrameClass score s.cands s.tracks.length cur ident) :
@@ -167,9 +115,9 @@ theorem fw_identity_preserved_greedy_partial (cfg : Config R) (hfx : cfg.fx = Fi
     s.tracks.length (by omega) cur ident hc
   exact FW.identity_step_of_stage cfg hfx ext score s hs hq cur ident hid hstage
 
-/-- **identity preserved, local queues, greedy matcher** (the no-stale hypothesis of `FrameClass`
-    is automatic here: `LQ.cands_ne_nil_all`) -/
-theorem lq_identity_preserved_greedy_partial (cfg : Config R) (hfx : cfg.fx = Fixes.repaired)
+/-- one call of `track`, local queues, greedy matcher (the no-stale hypothesis of `FrameClass` is
+    automatic here: `lq_no_stale`) -/
+theorem lq_identity_step_greedy (cfg : Config R) (hfx : cfg.fx = Fixes.repaired)
     (hg : cfg.matcher = .greedy) (ext : Ext R) (hext : ExtOk ext) (hsort : ArgsortSorted ext)
     (score : φ → φ → R) (s : LQ φ) (hs : s.Inv) (hq : s.queues ≠ []) (cur : List (φ × R))
     (ident : List (Nat × Nat)) (hc : FrameClass score s.cands s.tracks.length cur ident) :
@@ -181,7 +129,7 @@ theorem lq_identity_preserved_greedy_partial (cfg : Config R) (hfx : cfg.fx = Fi
   exact LQ.identity_step_of_stage cfg hfx ext score s hs hq cur ident hid hstage
 
 /-- Hungarian matcher: the same conclusion with scipy's optimum-uniqueness as a hypothesis -/
-theorem fw_identity_preserved_hungarian_partial (cfg : Config R) (hfx : cfg.fx = Fixes.repaired)
+theorem fw_identity_step_hungarian (cfg : Config R) (hfx : cfg.fx = Fixes.repaired)
     (hh : cfg.matcher = .hungarian) (ext : Ext R) (hext : ExtOk ext) (hpick : LsaPicksIdentity ext)
     (score : φ → φ → R) (s : FW φ) (hs : s.Inv) (hq : s.queue ≠ []) (cur : List (φ × R))
     (ident : List (Nat × Nat)) (hc : FrameClass score s.cands s.tracks.length cur ident) :
@@ -192,7 +140,7 @@ theorem fw_identity_preserved_hungarian_partial (cfg : Config R) (hfx : cfg.fx =
     s.tracks.length (by omega) cur ident hc
   exact FW.identity_step_of_stage cfg hfx ext score s hs hq cur ident hid hstage
 
-theorem lq_identity_preserved_hungarian_partial (cfg : Config R) (hfx : cfg.fx = Fixes.repaired)
+theorem lq_identity_step_hungarian (cfg : Config R) (hfx : cfg.fx = Fixes.repaired)
     (hh : cfg.matcher = .hungarian) (ext : Ext R) (hext : ExtOk ext) (hpick : LsaPicksIdentity ext)
     (score : φ → φ → R) (s : LQ φ) (hs : s.Inv) (hq : s.queues ≠ []) (cur : List (φ × R))
     (ident : List (Nat × Nat)) (hc : FrameClass score s.cands s.tracks.length cur ident) :
@@ -208,6 +156,141 @@ theorem lq_no_stale (s : LQ φ) (hs : s.Inv) : ∀ t, t < s.tracks.length → s.
   LQ.cands_ne_nil_all s hs
 
 end steps
+
+/-! ## whole histories -/
+
+section histories
+variable {R φ : Type} [Field R] [LinearOrder R] [IsStrictOrderedRing R]
+
+/-- one call of `track` preserves window purity and extends the injective owner map (fixed window) -/
+theorem window_purity_step_fw (cfg : Config R) (hfx : cfg.fx = Fixes.repaired) (ext : Ext R)
+    (hext : ExtOk ext)
+    (hmatch : (cfg.matcher = .greedy ∧ ArgsortSorted ext) ∨
+              (cfg.matcher = .hungarian ∧ LsaPicksIdentity ext))
+    (score : φ → φ → R) (who : φ → Nat) (owner : Nat → Nat) (s : FW φ) (hs : s.Inv)
+    (hp : FW.Pure who owner s) (hinj : InjOn owner s.tracks.length) (cur : List (φ × R))
+    (hc : SceneFrame who score cfg.thr s.cands s.tracks.length cur) :
+    ∃ s' ids owner', FW.step cfg ext score s cur = .ok (s', ids) ∧ s'.Inv ∧
+      FW.Pure who owner' s' ∧
+      OwnerStep who owner owner' s.tracks.length s'.tracks.length cur ids :=
+  FW.owner_step cfg hfx ext hext hmatch score who owner s hs hp hinj cur hc
+
+/-- the same for local queues -/
+theorem window_purity_step_lq (cfg : Config R) (hfx : cfg.fx = Fixes.repaired)
+    (hw : 0 < cfg.window) (ext : Ext R) (hext : ExtOk ext)
+    (hmatch : (cfg.matcher = .greedy ∧ ArgsortSorted ext) ∨
+              (cfg.matcher = .hungarian ∧ LsaPicksIdentity ext))
+    (score : φ → φ → R) (who : φ → Nat) (owner : Nat → Nat) (s : LQ φ) (hs : s.Inv)
+    (hp : LQ.Pure who owner s) (hinj : InjOn owner s.tracks.length) (cur : List (φ × R))
+    (hc : SceneFrame who score cfg.thr s.cands s.tracks.length cur) :
+    ∃ s' ids owner', LQ.step cfg ext score s cur = .ok (s', ids) ∧ s'.Inv ∧
+      LQ.Pure who owner' s' ∧
+      OwnerStep who owner owner' s.tracks.length s'.tracks.length cur ids :=
+  LQ.owner_step cfg hfx hw ext hext hmatch score who owner s hs hp hinj cur hc
+
+/-- **identity preserved, fixed window, greedy matcher, every history of the class** -/
+theorem identity_preserved_fw_greedy (cfg : Config R) (hfx : cfg.fx = Fixes.repaired)
+    (hg : cfg.matcher = .greedy) (ext : Ext R) (hext : ExtOk ext) (hsort : ArgsortSorted ext)
+    (score : φ → φ → R) (who : φ → Nat) (frames : List (List (φ × R)))
+    (hcl : FW.InClass cfg ext score who FW.empty frames) :
+    ∃ s' outs owner, run (FW.step cfg ext score) FW.empty frames = .ok (s', outs) ∧
+      InjOn owner s'.tracks.length ∧
+      List.Forall₂ (FrameOwned who owner s'.tracks.length) frames outs := by
+  obtain ⟨s', outs, owner, h1, _, _, h4, _, _, h7⟩ :=
+    FW.identity_history cfg hfx ext hext (Or.inl ⟨hg, hsort⟩) score who frames FW.empty (fun _ => 0)
+      FW.inv_empty (by intro fr hfr; simp [FW.empty] at hfr) (by intro t t' h; simp [FW.empty] at h) hcl
+  exact ⟨s', outs, owner, h1, h4, h7⟩
+
+/-- **identity preserved, local queues, greedy matcher, every history of the class** -/
+theorem identity_preserved_lq_greedy (cfg : Config R) (hfx : cfg.fx = Fixes.repaired)
+    (hw : 0 < cfg.window) (hg : cfg.matcher = .greedy) (ext : Ext R) (hext : ExtOk ext)
+    (hsort : ArgsortSorted ext) (score : φ → φ → R) (who : φ → Nat)
+    (frames : List (List (φ × R))) (hcl : LQ.InClass cfg ext score who LQ.empty frames) :
+    ∃ s' outs owner, run (LQ.step cfg ext score) LQ.empty frames = .ok (s', outs) ∧
+      InjOn owner s'.tracks.length ∧
+      List.Forall₂ (FrameOwned who owner s'.tracks.length) frames outs := by
+  obtain ⟨s', outs, owner, h1, _, _, h4, _, _, h7⟩ :=
+    LQ.identity_history cfg hfx hw ext hext (Or.inl ⟨hg, hsort⟩) score who frames LQ.empty
+      (fun _ => 0) LQ.inv_empty (by intro q hq; simp [LQ.empty] at hq)
+      (by intro t t' h; simp [LQ.empty] at h) hcl
+  exact ⟨s', outs, owner, h1, h4, h7⟩
+
+/-- Hungarian matcher, fixed window: the same under scipy's optimum-uniqueness contract
+    (`_partial`: `LsaPicksIdentity` is a hypothesis, see `hungarian_picks_identity_full`) -/
+theorem identity_preserved_fw_hungarian_partial (cfg : Config R) (hfx : cfg.fx = Fixes.repaired)
+    (hh : cfg.matcher = .hungarian) (ext : Ext R) (hext : ExtOk ext) (hpick : LsaPicksIdentity ext)
+    (score : φ → φ → R) (who : φ → Nat) (frames : List (List (φ × R)))
+    (hcl : FW.InClass cfg ext score who FW.empty frames) :
+    ∃ s' outs owner, run (FW.step cfg ext score) FW.empty frames = .ok (s', outs) ∧
+      InjOn owner s'.tracks.length ∧
+      List.Forall₂ (FrameOwned who owner s'.tracks.length) frames outs := by
+  obtain ⟨s', outs, owner, h1, _, _, h4, _, _, h7⟩ :=
+    FW.identity_history cfg hfx ext hext (Or.inr ⟨hh, hpick⟩) score who frames FW.empty (fun _ => 0)
+      FW.inv_empty (by intro fr hfr; simp [FW.empty] at hfr) (by intro t t' h; simp [FW.empty] at h) hcl
+  exact ⟨s', outs, owner, h1, h4, h7⟩
+
+/-- Hungarian matcher, local queues (`_partial` as above) -/
+theorem identity_preserved_lq_hungarian_partial (cfg : Config R) (hfx : cfg.fx = Fixes.repaired)
+    (hw : 0 < cfg.window) (hh : cfg.matcher = .hungarian) (ext : Ext R) (hext : ExtOk ext)
+    (hpick : LsaPicksIdentity ext) (score : φ → φ → R) (who : φ → Nat)
+    (frames : List (List (φ × R))) (hcl : LQ.InClass cfg ext score who LQ.empty frames) :
+    ∃ s' outs owner, run (LQ.step cfg ext score) LQ.empty frames = .ok (s', outs) ∧
+      InjOn owner s'.tracks.length ∧
+      List.Forall₂ (FrameOwned who owner s'.tracks.length) frames outs := by
+  obtain ⟨s', outs, owner, h1, _, _, h4, _, _, h7⟩ :=
+    LQ.identity_history cfg hfx hw ext hext (Or.inr ⟨hh, hpick⟩) score who frames LQ.empty
+      (fun _ => 0) LQ.inv_empty (by intro q hq; simp [LQ.empty] at hq)
+      (by intro t t' h; simp [LQ.empty] at h) hcl
+  exact ⟨s', outs, owner, h1, h4, h7⟩
+
+omit [Field R] [LinearOrder R] [IsStrictOrderedRing R] in
+/-- what the owner map means: over the whole history, two detections (of any two frames) have the
+    same track **iff** they are the same animal — each animal keeps one track id wherever it is
+    detected, and no track (in particular no newcomer's) is ever shared by two animals -/
+theorem identity_constant (who : φ → Nat) (owner : Nat → Nat) (m : Nat)
+    (frames : List (List (φ × R))) (outs : List (List (Option Nat))) (hinj : InjOn owner m)
+    (hall : List.Forall₂ (FrameOwned who owner m) frames outs)
+    (cur cur' : List (φ × R)) (ids ids' : List (Option Nat))
+    (h1 : (cur, ids) ∈ frames.zip outs) (h2 : (cur', ids') ∈ frames.zip outs)
+    (i i' t t' : Nat) (hi : i < cur.length) (hi' : i' < cur'.length)
+    (ht : ids[i]? = some (some t)) (ht' : ids'[i']? = some (some t')) :
+    who cur[i].1 = who cur'[i'].1 ↔ t = t' := by
+  obtain ⟨_, hz⟩ := List.forall₂_iff_zip.1 hall
+  obtain ⟨_, _, ho⟩ := hz h1
+  obtain ⟨_, _, ho'⟩ := hz h2
+  obtain ⟨htm, _, hw⟩ := ho i t ht
+  obtain ⟨htm', _, hw'⟩ := ho' i' t' ht'
+  constructor
+  · intro h
+    exact hinj t t' htm htm' (by rw [← hw, ← hw', h])
+  · intro h
+    subst h
+    rw [hw, hw']
+
+omit [Field R] [LinearOrder R] [IsStrictOrderedRing R] in
+/-- every detection of every frame has a track (restating the `tracked` part of `FrameOwned`) -/
+theorem identity_every_detection_tracked {who : φ → Nat} {owner : Nat → Nat} {m : Nat}
+    {cur : List (φ × R)} {ids : List (Option Nat)} (h : FrameOwned who owner m cur ids) :
+    ∀ i, i < cur.length → ∃ t, ids[i]? = some (some t) := h.2.1
+
+/-- total cost of an assignment (finite entries only) -/
+def sumCost (M : List (List (Option R))) (ms : List (Nat × Nat)) : R :=
+  (ms.map fun p => ((M.getD p.1 []).getD p.2 none).getD 0).sum
+
+/-- scipy's documented contract: a full-size one-to-one assignment of minimum total cost -/
+def LsaOptimal (ext : Ext R) : Prop :=
+  ∀ (M : List (List (Option R))) (k : Nat), (∀ row ∈ M, row.length = k) →
+    (∀ row ∈ M, ∀ o ∈ row, o ≠ none) →
+    ∀ ms', MatchValid M.length k ms' → ms'.length = min M.length k →
+      sumCost M (ext.lsa M) ≤ sumCost M ms'
+
+/-- NOT PROVED (kept visible): optimum uniqueness under row+column dominance — an optimal solver
+    returns exactly the identity edges.  This is what the hypothesis `LsaPicksIdentity` of the
+    `…_hungarian…` theorems stands for; the harness checks it on every recorded scipy call. -/
+def hungarian_picks_identity_full (R : Type) [Field R] [LinearOrder R] [IsStrictOrderedRing R] : Prop :=
+  ∀ ext : Ext R, ExtOk ext → LsaOptimal ext → LsaPicksIdentity ext
+
+end histories
 
 /-! ## non-vacuity: a concrete frame of the class -/
 
@@ -237,5 +320,50 @@ example :
     rcases this with h | h
     · exact ⟨(0, 1), by simp, Or.inl h.symm⟩
     · exact ⟨(1, 0), by simp, Or.inl h.symm⟩
+
+
+/-- a two-frame history of the class (two animals, detection order swapped on the second frame,
+    score = −distance, animals left / right of x = 30): the hypothesis `FW.InClass` of
+    `identity_preserved_fw_greedy` is satisfiable -/
+example :
+    FW.InClass (⟨3, 0, .greedy, .mean, Fixes.repaired⟩ : Config Rat) ⟨fun _ => [], fun _ => []⟩
+      (fun (a b : Int) => -((Int.natAbs (a - b) : Nat) : Rat)) (fun a => if a < 30 then 0 else 1)
+      FW.empty [[((10 : Int), (1 : Rat)), (50, 1)], [(51, 1), (11, 1)]] := by
+  have hstep : FW.step (⟨3, 0, .greedy, .mean, Fixes.repaired⟩ : Config Rat) ⟨fun _ => [], fun _ => []⟩
+      (fun (a b : Int) => -((Int.natAbs (a - b) : Nat) : Rat)) FW.empty
+      [((10 : Int), (1 : Rat)), (50, 1)] =
+      .ok (⟨[⟨[10, 50], [some 0, some 1]⟩], [0, 1]⟩, [some 0, some 1]) := by decide
+  have c0 : FW.cands (⟨[⟨[10, 50], [some 0, some 1]⟩], [0, 1]⟩ : FW Int) 0 = [10] := by decide
+  have c1 : FW.cands (⟨[⟨[10, 50], [some 0, some 1]⟩], [0, 1]⟩ : FW Int) 1 = [50] := by decide
+  refine ⟨⟨by decide, by simp, by simp [FW.empty], ?_, ?_, ?_⟩, ?_⟩
+  · intro d _ _ t ht; simp [FW.empty] at ht
+  · intro d _ t t' ht; simp [FW.empty] at ht
+  · intro d _ d' _ t ht; simp [FW.empty] at ht
+  · intro s' ids h
+    rw [hstep] at h
+    injection h with h; injection h with h1 h2; subst h1; subst h2
+    have two : ∀ t, t < 2 → t = 0 ∨ t = 1 := by intro t h; omega
+    refine ⟨⟨by decide, by simp, ?_, ?_, ?_, ?_⟩, fun _ _ _ => trivial⟩
+    · intro t ht
+      rcases two t ht with h | h <;> subst h <;> simp [c0, c1]
+    · intro d hd hnew
+      -- both detections are known animals: the premise is contradictory
+      exfalso
+      simp only [List.mem_cons, List.not_mem_nil, or_false] at hd
+      rcases hd with hd | hd <;> subst hd
+      · exact hnew 1 (by decide) 50 (by simp [c1]) (by decide)
+      · exact hnew 0 (by decide) 10 (by simp [c0]) (by decide)
+    · intro d hd t t' ht ht' f hf f' hf' e1 e2
+      simp only [List.mem_cons, List.not_mem_nil, or_false] at hd
+      rcases hd with hd | hd <;> subst hd <;> rcases two t ht with h | h <;> subst h <;>
+        rcases two t' ht' with h | h <;> subst h <;>
+        simp only [c0, c1, List.mem_singleton] at hf hf' <;> subst hf <;> subst hf' <;>
+        first | (exact absurd e1 (by decide)) | (exact absurd rfl e2) | norm_num
+    · intro d hd d' hd' t ht f hf f' hf' e1 e2 e3
+      simp only [List.mem_cons, List.not_mem_nil, or_false] at hd hd'
+      rcases hd with hd | hd <;> subst hd <;> rcases hd' with hd' | hd' <;> subst hd' <;>
+        rcases two t ht with h | h <;> subst h <;>
+        simp only [c0, c1, List.mem_singleton] at hf hf' <;> subst hf <;> subst hf' <;>
+        first | (exact absurd e1 (by decide)) | (exact absurd rfl e3) | norm_num
 
 end SleapVerif.C10
